@@ -24,6 +24,8 @@ pub struct Ctl {
     pub fail_open: String,
     /// the failing open reports NotFound instead of PermissionDenied
     pub fail_open_not_found: bool,
+    /// listing a directory whose path contains this string fails; empty = off
+    pub fail_list: String,
     /// number of upcoming positional reads (`read_from`) on read-only handles of paths containing `fail_read_path` that fail
     pub fail_reads: usize,
     pub fail_read_path: String,
@@ -72,6 +74,10 @@ impl FaultFs {
     /// number of positional reads served or failed so far
     pub fn reads(&self) -> usize {
         self.ctl.lock().unwrap().reads
+    }
+    /// listing a directory whose path contains `path_contains` fails (empty string = off)
+    pub fn fail_list(&self, path_contains: &str) {
+        self.ctl.lock().unwrap().fail_list = path_contains.to_string();
     }
     pub fn fail_next_len(&self, n: usize) {
         self.ctl.lock().unwrap().fail_len = n;
@@ -204,6 +210,13 @@ impl FileSystem for FaultFs {
         self.inner.create_dir_all(path)
     }
     fn list_dir(&self, path: &Path) -> Result<Vec<PathBuf>> {
+        {
+            let mut c = self.ctl.lock().unwrap();
+            if !c.fail_list.is_empty() && path.to_string_lossy().contains(&c.fail_list) {
+                c.failures += 1;
+                return Err(Error::new(ErrorKind::Other, "injected fault (list_dir)"));
+            }
+        }
         self.inner.list_dir(path)
     }
     fn open_file(&self, path: &Path) -> Result<Box<dyn ReadonlyRandomAccessFile>> {
